@@ -376,6 +376,60 @@ pub fn run(run: &mut Run) {
         }
     }
 
+    // ---------------- (ii-b) every pair and triple of escape atoms, valid and invalid: a literal
+    //                  with any escape that names no code point is a compile error, whatever stands beside it
+    run.sub("escape-sequences");
+    {
+        let atoms: [(&str, Option<&str>); 13] = [
+            ("\\ud83d", None),
+            ("\\ude00", None),
+            ("\\ud800", None),
+            ("\\udfff", None),
+            ("\\U0000d83d", None),
+            ("\\U0000de00", None),
+            ("\\U00110000", None),
+            ("\\u0041", Some("A")),
+            ("a", Some("a")),
+            ("\\x41", Some("A")),
+            ("\\101", Some("A")),
+            ("\\n", Some("\n")),
+            ("\\U0001f600", Some("\u{1f600}")),
+        ];
+        let n = atoms.len();
+        for s in st.iter().filter(|s| !s.raw && !s.bytes) {
+            for len in 2..=3usize {
+                let total = n.pow(len as u32);
+                for code in 0..total {
+                    if !run.take() {
+                        continue;
+                    }
+                    let mut c = code;
+                    let mut body = String::new();
+                    let mut val: Option<String> = Some(String::new());
+                    for _ in 0..len {
+                        let (sp, v) = atoms[c % n];
+                        c /= n;
+                        body.push_str(sp);
+                        val = match (val, v) {
+                            (Some(mut acc), Some(x)) => {
+                                acc.push_str(x);
+                                Some(acc)
+                            }
+                            _ => None,
+                        };
+                    }
+                    let src = format!("{}{}{}", s.open, body, s.close);
+                    let exp = match val {
+                        Some(v) => Exp::Str(v),
+                        None => Exp::CompileErr,
+                    };
+                    let class = if matches!(exp, Exp::CompileErr) { "esc-seq-with-invalid" } else { "esc-seq-valid" };
+                    judge(run, s.name, class, &src, &exp, &ctx);
+                }
+            }
+        }
+    }
+
     // ---------------- (iii) byte sequences over {0x00, 0x41, 0x7f, 0x80, 0xff, quote bytes} in bytes literals
     run.sub("byte-sequences");
     let balpha: [u8; 7] = [0x00, 0x41, 0x7f, 0x80, 0xff, b'\'', b'"'];
